@@ -99,7 +99,7 @@ Definition enc_arm_ok (cd : codec) (e : enc_arm) : bool :=
 
 Definition pad_ok (cd : codec) (p : Z * nat) : bool :=
   let '(size, n) := p in
-  (Z.of_nat n =? size) && (0 <? n)%nat &&
+  (Z.of_nat n =? size) && width_ok n &&
   match zassoc size (cd_dec_pad cd) with Some (n', _) => (n' =? n)%nat | None => false end.
 
 Definition codec_ok (cd : codec) : bool :=
